@@ -52,6 +52,7 @@ func main() {
 	algo(tier)
 	edges(tier)
 	wholeTrees(tier)
+	transformLaws(tier)
 	run.Exhaustive = true
 	run.Finish()
 }
